@@ -33,8 +33,13 @@ def guess_output_format(fileorname, fileformat_request):
                 name = fileorname
             else:
                 name = fileorname.name
+            if isinstance(name, bytes):
+                name = os.fsdecode(name)
             ext = os.path.splitext(name)[-1][1:]
-        except (AttributeError, ValueError, IndexError):
+        except (AttributeError, TypeError, ValueError, IndexError):
+            # no usable name: an object with write() only, or a file
+            # object whose name is a descriptor number or None
+            # (tempfile.TemporaryFile, os.fdopen, SpooledTemporaryFile)
             pass
 
         if ext == 'tex':
